@@ -25,6 +25,7 @@ type CallGraph struct {
 	Edges   []CallEdge
 	byCalle map[string][]int
 	byCalr  map[string][]int
+	priv    map[[2]string]int
 }
 
 // asyncLaunchers are the higher-order callees that run their literal argument
@@ -275,6 +276,75 @@ func (r *Run) CallersWithin(rule, key string, allowed ...string) {
 		if e.Ref {
 			kind = "references"
 		}
-		r.Check(rule, k, e.Pos, ok[e.Caller], "%s %s %s; allowed callers: %v", e.Caller, kind, key, allowed)
+		// a private helper of an allowed caller (a piece the caller was split into) is that caller
+		good := ok[e.Caller]
+		for _, a := range allowed {
+			if !good && g.PrivateTo(e.Caller, a) {
+				good = true
+			}
+		}
+		r.Check(rule, k, e.Pos, good, "%s %s %s; allowed callers: %v", e.Caller, kind, key, allowed)
 	}
+}
+
+// PrivateTo reports whether function x is a private helper of function a: x is a itself, or x is
+// unexported and every call or reference site of x lies in a or in another private helper of a. For
+// every rule that asks "who does this", such a helper is part of a — splitting a function into
+// pieces must not change a verdict. Exported functions and functions nobody calls are private to
+// nobody but themselves.
+func (g *CallGraph) PrivateTo(x, a string) bool {
+	if x == a {
+		return true
+	}
+	if g.priv == nil {
+		g.priv = map[[2]string]int{}
+	}
+	k := [2]string{x, a}
+	switch g.priv[k] {
+	case 1:
+		return true
+	case 2:
+		return false
+	case 3:
+		return true // being computed: a recursive edge does not decide
+	}
+	g.priv[k] = 3
+	name := x
+	if i := lastDot(x); i >= 0 {
+		name = x[i+1:]
+	}
+	exported := name != "" && name[0] >= 'A' && name[0] <= 'Z'
+	callers := g.Callers(x)
+	ok := !exported && len(callers) > 0 && pkgOfKey(x) == pkgOfKey(a)
+	n := 0
+	for _, e := range callers {
+		if !ok {
+			break
+		}
+		if e.Caller == x {
+			continue
+		}
+		n++
+		if !g.PrivateTo(e.Caller, a) {
+			ok = false
+		}
+	}
+	if n == 0 {
+		ok = false
+	}
+	if ok {
+		g.priv[k] = 1
+	} else {
+		g.priv[k] = 2
+	}
+	return ok
+}
+
+func lastDot(s string) int {
+	for i := len(s) - 1; i >= 0; i-- {
+		if s[i] == '.' {
+			return i
+		}
+	}
+	return -1
 }
